@@ -218,8 +218,9 @@ func extractNumberDFA(c *core.Ctx, R string) (trans map[string]*[256]numTrans, i
 	return trans, initial, okAll
 }
 
-func c13grammar(c *core.Ctx) {
-	const R = "C13.grammar"
+func c13grammar(c *core.Ctx) { c13grammarAs(c, "C13.grammar") }
+
+func c13grammarAs(c *core.Ctx, R string) {
 	c.Rule(R, "json/scanner.go: (driver) Scan stores finished=true right before each indirect state call, a false result returns an error, and after the loop !finished returns an error; (dfa) the recogniser extracted as a DFA over <state method, finished> (every state method specialised for each of the 256 byte values) accepts exactly the RFC 8259 number language: product construction against the reference DFA, each reachable mismatching pair reported with a shortest witness string")
 	c.Floor(R, 12)
 	// driver contract
@@ -229,7 +230,7 @@ func c13grammar(c *core.Ctx) {
 		return
 	}
 	drv := checkNumberDriver(scan)
-	for _, k := range []string{"finished=true before the state call", "false result returns an error", "!finished after the loop returns an error"} {
+	for _, k := range []string{"finished=true before the state call", "false result returns an error", "!finished after the loop returns an error", "no rejection besides the state machine, the finished flag, setExp and the trims"} {
 		c.Check(drv[k], R, "(*json.scanner).Scan:"+k, c.P.Pos(scan.Pos()), "driver contract: "+k, "the driver no longer enforces this clause, so the extracted DFA does not describe what Scan accepts")
 	}
 	trans, initial, okAll := extractNumberDFA(c, R)
@@ -391,6 +392,73 @@ func checkNumberDriver(scan *ssa.Function) map[string]bool {
 			if lo, ok := ifi.Cond.(*ssa.UnOp); ok && lo.Op == token.MUL && isField(lo.X, "finished") {
 				res["!finished after the loop returns an error"] = retErr(b.Succs[1])
 			}
+		}
+	}
+	// clause 4: no other rejection. Every return with a non-nil error either forwards the error of
+	// setExp / the two trims, or is controlled by the state-call result / the finished flag.
+	res["no rejection besides the state machine, the finished flag, setExp and the trims"] = true
+	for _, b := range scan.Blocks {
+		ret, ok := b.Instrs[len(b.Instrs)-1].(*ssa.Return)
+		if !ok || len(ret.Results) == 0 {
+			continue
+		}
+		e := ret.Results[len(ret.Results)-1]
+		if cst, ok := e.(*ssa.Const); ok && cst.Value == nil {
+			continue
+		}
+		forwarded := false
+		var origin func(v ssa.Value, d int) bool
+		origin = func(v ssa.Value, d int) bool {
+			if d > 4 {
+				return false
+			}
+			switch x := v.(type) {
+			case *ssa.Call:
+				if sc := x.Call.StaticCallee(); sc != nil {
+					switch sc.Name() {
+					case "setExp", "trimLeadingZerosInTheIntegerPart", "trimTrailingZerosInTheFractionalPart":
+						return true
+					}
+				}
+			case *ssa.Extract:
+				return origin(x.Tuple, d+1)
+			case *ssa.Phi:
+				for _, ed := range x.Edges {
+					if !origin(ed, d+1) {
+						return false
+					}
+				}
+				return len(x.Edges) > 0
+			case *ssa.MakeInterface:
+				return origin(x.X, d+1)
+			case *ssa.ChangeInterface:
+				return origin(x.X, d+1)
+			}
+			return false
+		}
+		forwarded = origin(e, 0)
+		if forwarded {
+			continue
+		}
+		controlled := false
+		for d, i := b, 0; d != nil && i < 4; d, i = d.Idom(), i+1 {
+			id := d.Idom()
+			if id == nil {
+				break
+			}
+			if ifi, ok := id.Instrs[len(id.Instrs)-1].(*ssa.If); ok {
+				if call, ok := ifi.Cond.(*ssa.Call); ok {
+					if lo, ok := call.Call.Value.(*ssa.UnOp); ok && isField(lo.X, "stateFn") {
+						controlled = true
+					}
+				}
+				if lo, ok := ifi.Cond.(*ssa.UnOp); ok && lo.Op == token.MUL && isField(lo.X, "finished") {
+					controlled = true
+				}
+			}
+		}
+		if !controlled {
+			res["no rejection besides the state machine, the finished flag, setExp and the trims"] = false
 		}
 	}
 	return res
